@@ -207,43 +207,28 @@ Proof.
   cbn [concat] in S. unfold str, slstate, ldstate in *. rewrite S. rewrite ld_flush_fin by exact I. reflexivity.
 Qed.
 
-(* ====================== C. UTF-8 ====================== *)
+(* ====================== C. UTF-8 (errors="replace": total) ====================== *)
 Lemma u_run_app : forall a b p,
-  u_run p (a ++ b) =
-  match u_run p a with
-  | None => None
-  | Some (p1, s1) => match u_run p1 b with
-                     | None => None
-                     | Some (p2, s2) => Some (p2, s1 ++ s2)
-                     end
-  end.
+  u_run p (a ++ b) = let '(p1, s1) := u_run p a in let '(p2, s2) := u_run p1 b in (p2, s1 ++ s2).
 Proof.
   induction a as [|x a IH]; intros b p; cbn [u_run app].
-  - destruct (u_run p b) as [[p2 s2]|]; reflexivity.
-  - destruct (classify (p ++ [x])).
-    + rewrite IH. destruct (u_run [] a) as [[p1 s1]|]; [|reflexivity].
-      destruct (u_run p1 b) as [[p2 s2]|]; reflexivity.
-    + apply IH.
-    + reflexivity.
+  - destruct (u_run p b) as [p2 s2]. reflexivity.
+  - destruct (u_step p x) as [p1 s1]. rewrite IH.
+    destruct (u_run p1 a) as [p1' s1']. destruct (u_run p1' b) as [p2 s2]. rewrite app_assoc. reflexivity.
 Qed.
 
-Definition utf8_from (p : bytes) (bs : bytes) : option str :=
-  match u_run p bs with Some (p', s) => Some (s ++ u_flush p') | None => None end.
+Definition utf8_from (p : bytes) (bs : bytes) : str := let '(p', s) := u_run p bs in s ++ u_flush p'.
 
 Lemma text_chunker_concat : forall t, concat (text_chunker t) = t.
 Proof. destruct t; [reflexivity | cbn; rewrite app_nil_r; reflexivity]. Qed.
 
-Lemma text_run_concat : forall cs p,
-  option_map (@concat N) (text_run p cs) = utf8_from p (concat cs).
+Lemma text_run_concat : forall cs p, concat (text_run p cs) = utf8_from p (concat cs).
 Proof.
   induction cs as [|c cs IH]; intros p; cbn [text_run concat].
-  - unfold utf8_from. cbn [u_run option_map]. rewrite text_chunker_concat. reflexivity.
-  - unfold utf8_from. rewrite u_run_app. destruct (u_run p c) as [[p1 t]|]; [|reflexivity].
-    specialize (IH p1). unfold utf8_from in IH.
-    destruct (text_run p1 cs) as [ts|]; cbn [option_map] in *.
-    + destruct (u_run p1 (concat cs)) as [[p2 s2]|]; [|discriminate].
-      inversion IH as [IH']. rewrite concat_app, text_chunker_concat, IH', app_assoc. reflexivity.
-    + destruct (u_run p1 (concat cs)) as [[p2 s2]|]; [discriminate | reflexivity].
+  - unfold utf8_from. cbn [u_run app]. apply text_chunker_concat.
+  - unfold utf8_from. rewrite u_run_app. destruct (u_run p c) as [p1 t].
+    rewrite concat_app, text_chunker_concat, IH. unfold utf8_from.
+    destruct (u_run p1 (concat cs)) as [p2 s2]. rewrite app_assoc. reflexivity.
 Qed.
 
 Theorem iter_bytes_concat : forall cs, concat (iter_bytes cs) = concat cs.
@@ -252,20 +237,19 @@ Proof.
   destruct c; cbn [nonemptyb concat app]; [exact IH | rewrite IH; reflexivity].
 Qed.
 
-(* Theorem 2: the text chunks produced for any chunking concatenate to the decoding of the whole stream
-   (in particular, well-formedness is a property of the stream, not of the chunking) *)
-Theorem utf8_chunk_independent : forall cs,
-  option_map (@concat N) (aiter_text cs) = utf8_decode (concat cs).
-Proof.
-  intros cs. unfold aiter_text. rewrite text_run_concat, iter_bytes_concat. reflexivity.
-Qed.
+(* Theorem 2: the text chunks produced for ANY byte stream (ill-formed UTF-8 included: the placement of U+FFFD) and
+   any chunking concatenate to the decoding of the whole stream *)
+Theorem utf8_chunk_independent : forall cs, concat (aiter_text cs) = utf8_decode (concat cs).
+Proof. intros cs. unfold aiter_text. rewrite text_run_concat, iter_bytes_concat. reflexivity. Qed.
 
 (* ====================== D. the iterators depend on the stream only ====================== *)
-Theorem aiter_lines_stream : forall cs,
-  aiter_lines cs = option_map splitlines (utf8_decode (concat cs)).
+Theorem aiter_lines_stream : forall cs, aiter_lines cs = splitlines (utf8_decode (concat cs)).
+Proof. intros cs. unfold aiter_lines. rewrite ld_chunk_independent, utf8_chunk_independent. reflexivity. Qed.
+
+Lemma read_all_concat : forall cs, concat (read_all cs) = concat cs.
 Proof.
-  intros cs. unfold aiter_lines. rewrite <- utf8_chunk_independent.
-  destruct (aiter_text cs) as [ts|]; cbn [option_map]; [rewrite ld_chunk_independent|]; reflexivity.
+  intros cs. unfold read_all. rewrite iter_bytes_concat.
+  destruct (concat cs); [reflexivity | cbn [concat]; rewrite app_nil_r; reflexivity].
 Qed.
 
 Section Indep.
@@ -290,7 +274,23 @@ Section Indep.
   (* in terms of the unsplit stream: what comes out for any chunking is what comes out for [whole] *)
   Theorem sse_whole : forall cs, iter_sse py_int cs = iter_sse py_int [concat cs].
   Proof. intros cs. apply sse_indep. cbn [concat]. rewrite app_nil_r. reflexivity. Qed.
+
+  (* ---- the generated client: the body is read completely first, so the helper sees one chunk ---- *)
+  Theorem e2e_events_stream : forall cs,
+    e2e_events py_int J json_loads cs = loads_all J json_loads (iter_sse_events_text py_int cs).
+  Proof. intros cs. unfold e2e_events. rewrite (sse_text_indep _ _ (read_all_concat cs)). reflexivity. Qed.
+
+  Theorem e2e_events_indep : forall cs1 cs2, concat cs1 = concat cs2 ->
+    e2e_events py_int J json_loads cs1 = e2e_events py_int J json_loads cs2.
+  Proof. intros cs1 cs2 H. rewrite !e2e_events_stream, (sse_text_indep _ _ H). reflexivity. Qed.
 End Indep.
+
+(* on that path even the ITEMS of the byte iterator are independent of the chunking: the whole body, once *)
+Theorem e2e_bytes_whole : forall cs, e2e_bytes cs = match concat cs with [] => [] | b => [b] end.
+Proof.
+  intros cs. unfold e2e_bytes, read_all. rewrite iter_bytes_concat.
+  destruct (concat cs); reflexivity.
+Qed.
 
 (* ====================== E. what a sender writes comes back ====================== *)
 Definition clean (l : str) : Prop := forall c, In c l -> is_nl c = false.
@@ -516,7 +516,8 @@ Section Round.
 
   Lemma guard_blocks : forall bs, guard bs = true -> forall b, In b bs -> good_block b = true.
   Proof.
-    intros bs H b Hb. unfold guard in H. apply andb_true_iff in H. destruct H as [Hd Ha].
+    intros bs H b Hb. unfold guard in H. apply andb_true_iff in H. destruct H as [H _].
+    apply andb_true_iff in H. destruct H as [Hd Ha].
     unfold guard_dom in Hd. unfold guard_F18a in Ha.
     rewrite forallb_forall in Hd, Ha. specialize (Hd b Hb). specialize (Ha b Hb).
     apply andb_true_iff in Hd. destruct Hd as [Hne Hd].
@@ -699,52 +700,101 @@ Proof.
   destruct ((128 <=? b3) && (b3 <=? 191)) eqn:E; [reflexivity | lia].
 Qed.
 
-Lemma u_run_enc1 : forall c r, valid_cp c = true ->
-  u_run [] (utf8_enc1 c ++ r) = match u_run [] r with Some (p, s) => Some (p, c :: s) | None => None end.
+Lemma u_strict_enc1 : forall c r, valid_cp c = true ->
+  u_strict [] (utf8_enc1 c ++ r) = match u_strict [] r with Some (p, s) => Some (p, c :: s) | None => None end.
 Proof.
   intros c r V. unfold valid_cp in V. unfold utf8_enc1.
-  destruct (c <? 128) eqn:E1; [|destruct (c <? 2048) eqn:E2; [|destruct (c <? 65536) eqn:E3]]; cbn [app u_run].
+  destruct (c <? 128) eqn:E1; [|destruct (c <? 2048) eqn:E2; [|destruct (c <? 65536) eqn:E3]]; cbn [app u_strict].
   - rewrite classify1_char by lia. reflexivity.
-  - rewrite classify1_more by lia. cbn [app u_run].
+  - rewrite classify1_more by lia. cbn [app u_strict].
     rewrite classify2_char by (try apply second_ok_true; lia).
     replace ((192 + c / 64 - 192) * 64 + (128 + c mod 64 - 128)) with c by lia. reflexivity.
-  - rewrite classify1_more by lia. cbn [app u_run].
-    rewrite classify2_more by (try apply second_ok_true; lia). cbn [app u_run].
+  - rewrite classify1_more by lia. cbn [app u_strict].
+    rewrite classify2_more by (try apply second_ok_true; lia). cbn [app u_strict].
     rewrite classify3_char by lia.
     replace ((224 + c / 4096 - 224) * 4096 + (128 + (c / 64) mod 64 - 128) * 64 + (128 + c mod 64 - 128)) with c by lia.
     reflexivity.
-  - rewrite classify1_more by lia. cbn [app u_run].
-    rewrite classify2_more by (try apply second_ok_true; lia). cbn [app u_run].
-    rewrite classify3_more by lia. cbn [app u_run].
+  - rewrite classify1_more by lia. cbn [app u_strict].
+    rewrite classify2_more by (try apply second_ok_true; lia). cbn [app u_strict].
+    rewrite classify3_more by lia. cbn [app u_strict].
     rewrite classify4_char by lia.
     replace ((240 + c / 262144 - 240) * 262144 + (128 + (c / 4096) mod 64 - 128) * 4096
              + (128 + (c / 64) mod 64 - 128) * 64 + (128 + c mod 64 - 128)) with c by lia.
     reflexivity.
 Qed.
 
-Lemma u_run_encode : forall s, forallb valid_cp s = true -> u_run [] (utf8_encode s) = Some ([], s).
+Lemma u_strict_encode : forall s, forallb valid_cp s = true -> u_strict [] (utf8_encode s) = Some ([], s).
 Proof.
   induction s as [|c s IH]; intros H; [reflexivity|]. cbn [forallb] in H. apply andb_true_iff in H.
-  destruct H as [Hc Hs]. unfold utf8_encode in *. cbn [flat_map]. rewrite u_run_enc1 by exact Hc.
+  destruct H as [Hc Hs]. unfold utf8_encode in *. cbn [flat_map]. rewrite u_strict_enc1 by exact Hc.
   rewrite IH by exact Hs. reflexivity.
 Qed.
 
-Theorem utf8_decode_encode : forall s, forallb valid_cp s = true -> utf8_decode (utf8_encode s) = Some s.
-Proof. intros s H. unfold utf8_decode. rewrite u_run_encode by exact H. cbn [u_flush]. rewrite app_nil_r. reflexivity. Qed.
+(* where strict decoding succeeds, the replace decoder does exactly the same *)
+Lemma more_not_sur : forall q, classify q = UMore -> sur_prefix q = false.
+Proof.
+  intros q H. destruct q as [|b0 [|b1 [|b2 q]]]; try reflexivity.
+  unfold sur_prefix. unfold classify, second_ok in H. destruct (b0 =? 237) eqn:E; [|reflexivity].
+  assert (E224 : (b0 =? 224) = false) by lia. rewrite E224 in H.
+  unfold in_rng in *. destruct ((128 <=? b1) && (b1 <=? 159)) eqn:E2; [|discriminate].
+  cbn [andb]. lia.
+Qed.
+
+Lemma strict_replace : forall bs p r, sur_prefix p = false -> u_strict p bs = Some r -> u_run p bs = r.
+Proof.
+  induction bs as [|b bs IH]; intros p r Hp H; cbn [u_strict u_run] in *.
+  - inversion H. reflexivity.
+  - assert (Hstep : forall q, classify (p ++ [b]) = q ->
+              u_step p b = match q with
+                           | UChar c => ([], [c])
+                           | UMore => (p ++ [b], [])
+                           | UBad => u_step p b
+                           end).
+    { intros q Hq. unfold u_step. destruct p as [|b0 p0].
+      - unfold u_start. cbn [app] in Hq. rewrite Hq. destruct q; reflexivity.
+      - rewrite Hp, Hq. destruct q; reflexivity. }
+    destruct (classify (p ++ [b])) as [c| |] eqn:E; [| |discriminate].
+    + rewrite (Hstep _ eq_refl).
+      destruct (u_strict [] bs) as [[p' s]|] eqn:E2; [|discriminate]. inversion H; subst r.
+      rewrite (IH [] (p', s) eq_refl E2). reflexivity.
+    + rewrite (Hstep _ eq_refl). rewrite (IH (p ++ [b]) r (more_not_sur _ E) H). destruct r. reflexivity.
+Qed.
+
+Lemma u_run_encode : forall s, forallb valid_cp s = true -> u_run [] (utf8_encode s) = ([], s).
+Proof. intros s H. apply strict_replace; [reflexivity | apply u_strict_encode; exact H]. Qed.
+
+Theorem utf8_decode_encode : forall s, forallb valid_cp s = true -> utf8_decode (utf8_encode s) = s.
+Proof. intros s H. unfold utf8_decode. rewrite u_run_encode by exact H. cbn [u_flush]. apply app_nil_r. Qed.
+
+(* on well-formed streams (strict decoding succeeds) no U+FFFD is invented: replace = strict *)
+Theorem utf8_wf_strict : forall bs p s, u_strict [] bs = Some (p, s) -> utf8_decode bs = s ++ u_flush p.
+Proof. intros bs p s H. unfold utf8_decode. rewrite (strict_replace bs [] (p, s) eq_refl H). reflexivity. Qed.
+
+Lemma filter_all : forall {A} (f : A -> bool) l, forallb f l = true -> filter f l = l.
+Proof.
+  induction l as [|x l IH]; intros H; [reflexivity|]. cbn [forallb filter] in *.
+  apply andb_true_iff in H. destruct H as [Hx Hl]. rewrite Hx, IH by exact Hl. reflexivity.
+Qed.
+
+Lemma spec_events_guard : forall bs, guard bs = true -> spec_events bs = map expected bs.
+Proof.
+  intros bs G. unfold guard in G. apply andb_true_iff in G. destruct G as [_ G].
+  unfold spec_events. unfold guard_F18c in G. rewrite filter_all by exact G. reflexivity.
+Qed.
 
 (* byte level, any chunking: if the stream is the UTF-8 encoding of what the sender wrote, the events come back *)
 Theorem sse_roundtrip : forall (py_int : str -> option Z),
   (forall ds, ds <> [] -> forallb is_digit ds = true -> py_int ds = Some (digits_val ds)) ->
   forall t k bs cs, guard bs = true ->
-  utf8_decode (concat cs) = Some (encode t k bs) ->
-  iter_sse py_int cs = Some (map expected bs) /\
-  iter_sse_events_text py_int cs = Some (filter nonemptyb (map e_data (map expected bs))).
+  utf8_decode (concat cs) = encode t k bs ->
+  iter_sse py_int cs = spec_events bs /\
+  iter_sse_events_text py_int cs = filter nonemptyb (map e_data (spec_events bs)).
 Proof.
-  intros py_int Hint t k bs cs G H.
-  assert (E : iter_sse py_int cs = Some (map expected bs)).
-  { unfold iter_sse. rewrite aiter_lines_stream, H. cbn [option_map].
-    rewrite (sse_roundtrip_text py_int Hint t k bs G). reflexivity. }
-  split; [exact E|]. unfold iter_sse_events_text. rewrite E. f_equal. unfold events_text. clear E.
+  intros py_int Hint t k bs cs G H. rewrite (spec_events_guard bs G).
+  assert (E : iter_sse py_int cs = map expected bs).
+  { unfold iter_sse. rewrite aiter_lines_stream, H.
+    apply (sse_roundtrip_text py_int Hint t k bs G). }
+  split; [exact E|]. unfold iter_sse_events_text. rewrite E. unfold events_text. clear E.
   induction (map expected bs) as [|e es IH]; [reflexivity|]. cbn [filter map].
   destruct (nonemptyb (e_data e)); cbn [map]; rewrite IH; reflexivity.
 Qed.
@@ -755,8 +805,8 @@ Theorem sse_roundtrip_bytes : forall (py_int : str -> option Z),
   (forall ds, ds <> [] -> forallb is_digit ds = true -> py_int ds = Some (digits_val ds)) ->
   forall t k bs cs, guard bs = true -> forallb valid_cp (encode t k bs) = true ->
   concat cs = utf8_encode (encode t k bs) ->
-  iter_sse py_int cs = Some (map expected bs) /\
-  iter_sse_events_text py_int cs = Some (filter nonemptyb (map e_data (map expected bs))).
+  iter_sse py_int cs = spec_events bs /\
+  iter_sse_events_text py_int cs = filter nonemptyb (map e_data (spec_events bs)).
 Proof.
   intros py_int Hint t k bs cs G V H. apply (sse_roundtrip py_int Hint t k bs cs G).
   rewrite H. apply utf8_decode_encode. exact V.
@@ -766,11 +816,11 @@ Qed.
 Theorem ndjson_roundtrip : forall (J : Type) (jl : str -> option J) (recs : list (str * J)) t cs,
   all_clean (map fst recs) ->
   (forall l j, In (l, j) recs -> strip l <> [] /\ jl (strip l) = Some j) ->
-  utf8_decode (concat cs) = Some (enc_lines t (map fst recs)) ->
-  iter_ndjson J jl cs = Some (map snd recs, false).
+  utf8_decode (concat cs) = enc_lines t (map fst recs) ->
+  iter_ndjson J jl cs = (map snd recs, false).
 Proof.
-  intros J jl recs t cs Hc Hj H. unfold iter_ndjson. rewrite aiter_lines_stream, H. cbn [option_map].
-  rewrite splitlines_enc_lines by exact Hc. f_equal. clear H Hc.
+  intros J jl recs t cs Hc Hj H. unfold iter_ndjson. rewrite aiter_lines_stream, H.
+  rewrite splitlines_enc_lines by exact Hc. clear H Hc.
   induction recs as [|[l j] recs IH]; [reflexivity|]. cbn [map fst snd ndjson_of_lines].
   destruct (Hj l j (or_introl eq_refl)) as [Hne Hl].
   destruct (strip l) as [|c s] eqn:E; [contradiction|]. rewrite Hl.
@@ -788,21 +838,42 @@ Proof. split; reflexivity. Qed.
 (* "data: e-acute" CRLF CRLF cut inside the two-byte character and between CR and LF *)
 Definition cs_ok : list bytes := [[100; 97; 116; 97; 58; 32; 195]; [169; 13]; []; [10; 13]; [10]].
 Example roundtrip_nonvacuous :
-  guard [[IData [233]]] = true /\ utf8_decode (concat cs_ok) = Some (encode CRLF TFull [[IData [233]]]).
+  guard [[IData [233]]] = true /\ utf8_decode (concat cs_ok) = encode CRLF TFull [[IData [233]]].
 Proof. split; reflexivity. Qed.
 
 Example chunking_matters_in_the_model :   (* the layers below really are chunk-sensitive: state is carried *)
-  aiter_text cs_ok = Some [[100; 97; 116; 97; 58; 32]; [233; 13]; [10; 13]; [10]] /\
+  aiter_text cs_ok = [[100; 97; 116; 97; 58; 32]; [233; 13]; [10; 13]; [10]] /\
   fst (ld_fold ([], false) [[100; 97; 116; 97; 58; 32]; [233; 13]; [10; 13]; [10]]) = ([], false).
 Proof. split; reflexivity. Qed.
+
+(* ill-formed UTF-8: E2 28 A1 ("\xe2(\xa1") decodes to U+FFFD "(" U+FFFD however it is cut; a UTF-8-encoded surrogate
+   ED A0 80 gives three U+FFFD, and CPython's "truncated surrogate" pending state is reproduced *)
+Example ill_formed_examples :
+  utf8_decode [226; 40; 161] = [65533; 40; 65533] /\
+  aiter_text [[226]; [40; 161]] = [[65533; 40; 65533]] /\
+  aiter_text [[226; 40]; [161]] = [[65533; 40]; [65533]] /\
+  utf8_decode [237; 160; 128] = [65533; 65533; 65533] /\
+  aiter_text [[237; 160]; [128]] = [[65533; 65533; 65533]] /\
+  aiter_text [[237]; [160; 128]] = [[65533; 65533; 65533]] /\
+  aiter_text [[237; 160; 128]] = [[65533; 65533; 65533]] /\
+  aiter_text [[97; 237; 160]] = [[97]; [65533; 65533]] /\
+  utf8_wf [226; 40; 161] = false /\ utf8_wf [240; 159; 152] = true.
+Proof. repeat split; vm_compute; reflexivity. Qed.
 
 (* ---------- refutations of the functional half on the faithful model ---------- *)
 Definition bs_F18a : list block := [[IData [97; 8232; 98]]].      (* data: a<U+2028>b *)
 Definition bs_F18b : list block := [[IData [32; 120]]].           (* data:  x  (payload " x") *)
 
 Lemma refuted_F18a :
-  guard_dom bs_F18a = true /\ guard_F18a bs_F18a = false /\
-  forall py_int, sse_of_lines py_int (splitlines (encode LF TFull bs_F18a)) <> map expected bs_F18a.
+  guard_dom bs_F18a = true /\ guard_F18a bs_F18a = false /\ guard_F18c bs_F18a = true /\
+  forall py_int, sse_of_lines py_int (splitlines (encode LF TFull bs_F18a)) <> spec_events bs_F18a.
+Proof. repeat split; try (vm_compute; reflexivity). intros py_int H. vm_compute in H. discriminate H. Qed.
+
+(* F18c: ": keep-alive" blank "data: x" blank — the comment-only block is delivered as an event with empty data *)
+Definition bs_F18c : list block := [[IComment [32; 107; 97]]; [IData [120]]].
+Lemma refuted_F18c :
+  guard_dom bs_F18c = true /\ guard_F18a bs_F18c = true /\ guard_F18c bs_F18c = false /\
+  forall py_int, sse_of_lines py_int (splitlines (encode LF TFull bs_F18c)) <> spec_events bs_F18c.
 Proof. repeat split; try (vm_compute; reflexivity). intros py_int H. vm_compute in H. discriminate H. Qed.
 
 (* F18b is fixed: the former witnesses (payload " x" sent as `data:  x`; TAB / NBSP / ideographic-space first) meet the
